@@ -30,6 +30,11 @@ def stream_env(ip):
             return None
         if name == "wait_closed":
             ctx.ghost.events.append(("wait_closed", o))
+            if o.state.get("maybe_lost") and ctx.fork(2) == 1:
+                # E6': when the peer reset the connection (an operation failed on it), asyncio hands the transport's error to
+                # whoever awaits wait_closed(): ConnectionResetError / BrokenPipeError, on every call
+                ctx.used_models.add("E6': wait_closed() of a connection the peer reset raises ConnectionResetError/BrokenPipeError (OSError)")
+                raise PyExc(ExcVal("ConnectionResetError", ("connection lost",)))
             return None
         if name == "is_closing":
             return bool(o.state.get("closed"))
